@@ -98,6 +98,38 @@ def case(ctx, idx, res):
         res.viol('tree|%s' % cls, 'result tree differs from the one XSLT defines: %s\n    stylesheet: %s\n    document: %s' % (d[:300], mxsl[:700], mxml[:300]), payload)
 
 
+# The namespace nodes of elements inside a result tree fragment, looked at directly (the reference interpreter does not model them, so the
+# expectation is written out from XSLT 7.1.1 / XPath 5.4): place of the variable, the fragment, and the prefixes its first element must have
+RTF_NS_PROBES = [
+    ('top-level', '<xsl:variable name="v"><p:r xmlns:z="urn:z"><k/></p:r></xsl:variable><xsl:template match="/"><out>%s</out></xsl:template>', ['p', 'xml', 'z']),
+    ('inside a literal element that declares the prefix', '<xsl:template match="/"><out><p:outer><xsl:variable name="v"><p:r xmlns:z="urn:z"/></xsl:variable>%s</p:outer></out></xsl:template>', ['p', 'xml', 'z']),
+    ('xsl:element', '<xsl:template match="/"><out><xsl:variable name="v"><xsl:element name="y:r" namespace="urn:y"/></xsl:variable>%s</out></xsl:template>', ['xml', 'y']),
+]
+
+
+def rtf_ns_probe(ctx, idx, res):
+    d = ctx.drv(FLAVOUR)
+    where, body, want = RTF_NS_PROBES[idx]
+    obs = '<xsl:for-each select="exsl:node-set($v)/*/namespace::*"><xsl:sort select="name()"/><xsl:value-of select="concat(name(), \' \')"/></xsl:for-each>'
+    xsl = ('<xsl:stylesheet version="1.0" xmlns:xsl="http://www.w3.org/1999/XSL/Transform" xmlns:p="urn:p" xmlns:exsl="http://exslt.org/common" exclude-result-prefixes="exsl p">'
+           '<xsl:output method="text"/>' + body % obs + '</xsl:stylesheet>')
+    t = d.call(cmd='tnew')['t'].decode()
+    try:
+        rp = d.call(cmd='transform', t=t, src='stream', sty='stream', tgt='stream', xml=b'<doc/>', xsl=xsl.encode())
+    finally:
+        d.call(cmd='tdel', t=t)
+    res.sig = ('rtf-namespace-probe',)
+    res.count('rtf_namespace_probes')
+    got = (rp.get('out') or b'').decode('utf-8', 'replace').split()
+    if rp.get('status') != b'0':
+        res.viol('rtf-namespace-axis|fails', 'the probe (%s) fails: %r' % (where, rp.get('err', b'')[:200]), {'stylesheet': xsl})
+    elif got != want:
+        res.viol('rtf-namespace-axis|%s' % ('missing' if set(got) < set(want) else 'other'),
+                 'namespace nodes of the first element of a result tree fragment (%s): prefixes %s, XSLT 7.1.1 / XPath 5.4 give %s' % (where, got, want), {'stylesheet': xsl, 'document': '<doc/>'})
+    else:
+        res.count('rtf_namespace_probe_as_specified')
+
+
 def main():
     chk = Check('C01')
     chk.rule = ('generated stylesheets over the core instruction set (template rules with match/name/mode/priority, apply-templates, '
@@ -110,6 +142,7 @@ def main():
     chk.ensure(FLAVOUR, 'xvdrv')
     n = 12000 if chk.tier == "quick" else 400000
     chk.run_cases('c01', 'case', range(n))
+    chk.run_cases('c01', 'rtf_ns_probe', range(len(RTF_NS_PROBES)))
     chk.finish(min_nontrivial=50, required_stats=('agree',))
 
 
